@@ -82,7 +82,7 @@ func TestStoreSpecial(t *testing.T) {
 	}
 	w.Close()
 	dw := vh.NewNDJSON(t, filepath.Join(dir, "dict.ndjson"))
-	dw.Put(map[string]any{"names": allNames, "callers": allCallers, "maxver": 3})
+	dw.Put(map[string]any{"names": allNames, "callers": allCallers, "readers": []string{"r1", "r2", "r3"}, "maxver": 3})
 	dw.Close()
 	res.Set("cases", cases)
 	res.Write(t)
